@@ -10,16 +10,28 @@
 (* evaluate is broken) is recorded; the address is still marked verified   *)
 (* and its needed addresses are still pushed.                              *)
 (* A workbook with iterative calculation switched on (calculation.iterate, *)
-(* constant Iterate) is evaluated differently: nothing is "already         *)
+(* variable iterate) is evaluated differently: nothing is "already         *)
 (* computed", every evaluate() recalculates the whole precedent cone of    *)
 (* the cell from the inputs and overwrites what the cone held.  What is    *)
 (* compared there is the result the FILE stores for the cell (StoredP)     *)
 (* with the recalculated one: the value the cell happens to hold when it   *)
 (* comes off the work list may already be a recalculated one.              *)
+(* What the reader hands over for a stored result (Engine.StoredRead): the *)
+(* empty text is stored as <v></v> and comes back as "no value" (UnkV); the *)
+(* cell is calculated when a dependant needs it.  The result the FILE      *)
+(* stores for such a cell is still the empty text, and that is what the    *)
+(* recalculated value is compared with.                                    *)
 (* Choices made in Init: the perturbed cell p and its stored value pv      *)
-(* (or no perturbation), the output list, the tolerance (-1 = None, the    *)
-(* default: relative closeness; 0, 1, 2 .. = an absolute tolerance, where  *)
-(* 0 asks for equal numbers).                                              *)
+(* (or no perturbation), the output list, and a configuration: the formula *)
+(* cells whose evaluation raises, the calculation mode, the tolerance      *)
+(* (-1 = None, the default: relative closeness; 0, 1, 2 .. = an absolute   *)
+(* tolerance, where 0 asks for equal numbers).                             *)
+(* "Altered by more than the tolerance" (Altered): a tolerance bounds the  *)
+(* distance of two NUMBERS.  A logical, a text, an error value are not     *)
+(* numbers (=TRUE=1 is FALSE), so a stored result which is replaced by a   *)
+(* value of another kind -- TRUE by 1, 0 by FALSE, a text by the empty     *)
+(* text -- or by another value of the same non-numeric kind is altered     *)
+(* whatever the tolerance is.                                              *)
 (* Property (checked when the work list is empty):                         *)
 (*   no perturbation, nothing broken  => empty report                      *)
 (*   p reachable                      => p reported with (stored, recomputed)*)
@@ -29,29 +41,33 @@
 EXTENDS Engine
 
 CONSTANTS OutputLists,   \* set of sequences of nodes (output_addrs)
-          Tols,          \* subset of {-1 (= None), 0, 1, 2, ...}
           Perturbs,      \* set of <<cell, value>> stored-result alterations
-          Broken,        \* formula cells whose evaluation raises
-          Iterate        \* BOOLEAN: the workbook calculates iteratively
+          Configs        \* set of <<broken, iterate, tol>> (chosen in Init):
+                         \*   broken   formula cells whose evaluation raises
+                         \*   iterate  BOOLEAN: the workbook calculates iteratively
+                         \*   tol      -1 (= None), 0, 1, 2, ...
 
-VARIABLES p, outs, tol, todo, verified, mism, excs
-vvars == <<vars, p, outs, tol, todo, verified, mism, excs>>
+VARIABLES p, outs, tol, broken, iterate, todo, verified, mism, excs
+vvars == <<vars, p, outs, tol, broken, iterate, todo, verified, mism, excs>>
 
 NoP == <<"", NoneV>>
 
+\* the result the file stores for a formula cell, and what the reader makes of it
 StoredP(x) == IF p # NoP /\ x = p[1] THEN p[2] ELSE Stored(x)
+ReadP(x)   == IF StoredP(x) = VS("") THEN UnkV ELSE StoredP(x)
 
 Abs(i) == IF i < 0 THEN -i ELSE i
-\* close_enough(): python treats logicals as the numbers 1 and 0
-Numeric(v) == v[1] = "N" \/ v[1] = "B"
-Close(a, b) ==
-  IF Numeric(a) /\ Numeric(b)
-  THEN IF tol < 0                    \* tolerance None: relative 1e-5 (math.isclose)
-       THEN Abs(a[2] - b[2]) <= (IF Abs(a[2]) >= Abs(b[2]) THEN Abs(a[2]) ELSE Abs(b[2])) \div 100000
-       ELSE Abs(a[2] - b[2]) <= tol   \* "altered by more than the tolerance" is
-                                      \* the complement: equal numbers are close
-                                      \* under every tolerance, 0 included
-  ELSE a = b
+\* two numbers within the tolerance
+NumClose(x, y) ==
+  IF tol < 0                         \* tolerance None: relative 1e-5 (math.isclose)
+  THEN Abs(x - y) <= (IF Abs(x) >= Abs(y) THEN Abs(x) ELSE Abs(y)) \div 100000
+  ELSE Abs(x - y) <= tol             \* equal numbers are close under every
+                                     \* tolerance, 0 included
+\* the statement: stored result s of a cell "altered by more than the tolerance" to a
+Altered(s, a) == IF IsNum(s) /\ IsNum(a) THEN ~NumClose(s[2], a[2]) ELSE s # a
+\* close_enough(): a tolerance is for two numbers; a logical is not the number
+\* 1 or 0, whatever python's True == 1 says
+Close(a, b) == IF IsNum(a) /\ IsNum(b) THEN NumClose(a[2], b[2]) ELSE a = b
 
 (* _gen_graph(addr): build the missing ancestors, stored results for new    *)
 (* formula cells, new ranges / unbounded references evaluated eagerly      *)
@@ -60,7 +76,7 @@ BuildOnly(n) ==
       c0 == [x \in Nodes |->
                IF x \notin B THEN cache[x]
                ELSE IF x \in Inputs THEN inp[x]
-               ELSE IF x \in Formulas THEN StoredP(x)
+               ELSE IF x \in Formulas THEN ReadP(x)
                ELSE NoneV]
   IN  [built |-> built \cup B, edges |-> edges \cup NewEdges(B),
        cache |-> Fill(c0, B \cap (Ranges \cup Aliases))]
@@ -75,7 +91,7 @@ VInit ==
   /\ Init
   /\ p \in Perturbs \cup {NoP}
   /\ outs \in OutputLists
-  /\ tol \in Tols
+  /\ \E c \in Configs : broken = c[1] /\ iterate = c[2] /\ tol = c[3]
   /\ todo = outs
   /\ verified = {}
   /\ mism = <<>>          \* sequence of <<cell, original, calced>> (dict order)
@@ -89,33 +105,37 @@ VStep ==
          c0 == [x \in Nodes |->
                   IF x \notin B THEN cache[x]
                   ELSE IF x \in Inputs THEN inp[x]
-                  ELSE IF x \in Formulas THEN StoredP(x)
+                  ELSE IF x \in Formulas THEN ReadP(x)
                   ELSE NoneV]
          \* what _gen_graph evaluates (new ranges) and what the check evaluates
          needBuild == UNION {Needed(r, c0) : r \in B \cap (Ranges \cup Aliases)}
          st == BuildOnly(n)
          \* (iteratively: the whole cone of the cell, computed before or not)
          needEval == IF n \notin Formulas THEN {}
-                     ELSE IF Iterate THEN AncOf(n) \ Inputs
+                     ELSE IF iterate THEN AncOf(n) \ Inputs
                      ELSE Needed(n, [st.cache EXCEPT ![n] = NoneV])
      IN  /\ built' = st.built
          /\ edges' = st.edges
          /\ verified' = verified \cup {n}
          /\ todo' = Push(rest, n, verified \cup {n})
-         /\ IF needBuild \cap Broken # {}
+         /\ IF needBuild \cap broken # {}
             THEN \* _gen_graph raised while evaluating a new range
                  /\ excs' = excs \cup {n}
                  /\ cache' = c0
                  /\ mism' = mism
-            ELSE IF needEval \cap Broken # {}
+            ELSE IF needEval \cap broken # {}
             THEN \* the cell, or an uncomputed precedent, raised; it stays cleared
                  /\ excs' = excs \cup {n}
                  /\ cache' = [st.cache EXCEPT ![n] = NoneV]
                  /\ mism' = mism
             ELSE /\ excs' = excs
                  /\ IF n \in Formulas
-                    THEN LET orig == IF Iterate THEN StoredP(n) ELSE st.cache[n]
-                             c1 == IF Iterate
+                    THEN LET \* the value the cell holds; the result in the file where
+                             \* that is not the same thing: recalculated before
+                             \* (iteratively), or an empty text read as "no value"
+                             orig == IF iterate \/ StoredP(n) = VS("")
+                                     THEN StoredP(n) ELSE st.cache[n]
+                             c1 == IF iterate
                                    THEN FillLevels(st.cache, AncOf(n) \ Inputs, 1)
                                    ELSE Fill([st.cache EXCEPT ![n] = NoneV], {n})
                          IN  /\ cache' = c1
@@ -125,7 +145,7 @@ VStep ==
                     ELSE /\ cache' = st.cache
                          /\ mism' = mism
   /\ act' = [op |-> "vstep"]
-  /\ UNCHANGED <<inp, changed, ret, p, outs, tol>>
+  /\ UNCHANGED <<inp, changed, ret, p, outs, tol, broken, iterate>>
 
 VSpec == VInit /\ [][VStep]_vvars
 
@@ -140,20 +160,20 @@ DescOf(x) == {y \in Nodes : x \in AncOf(y)}          \* x itself and its dependa
 Reported == {mism[i][1] : i \in 1..Len(mism)}
 Finished == todo = <<>>
 
-ConsistentEmpty == Finished /\ p = NoP /\ Broken = {} => mism = <<>> /\ excs = {}
+ConsistentEmpty == Finished /\ p = NoP /\ broken = {} => mism = <<>> /\ excs = {}
 
 PerturbedNamed ==
   Finished /\ p # NoP /\ p[1] \in Reach /\ p[1] \notin excs
-           /\ ~Close(Stored(p[1]), p[2]) =>
+           /\ Altered(Stored(p[1]), p[2]) =>
      \E i \in 1..Len(mism) : mism[i] = <<p[1], p[2], Stored(p[1])>>
 
 OnlyDependants ==
   Finished => IF p = NoP THEN Reported = {} ELSE Reported \subseteq DescOf(p[1])
 
 UnevaluableReported ==
-  Finished => \A b \in Broken \cap Reach \cap Formulas : b \in excs
+  Finished => \A b \in broken \cap Reach \cap Formulas : b \in excs
 
 Export == Finished =>
-  PrintT(ToJson([p |-> p, outs |-> outs, tol |-> tol, mism |-> mism,
-                 excs |-> excs, reach |-> Reach]))
+  PrintT(ToJson([p |-> p, outs |-> outs, tol |-> tol, broken |-> broken,
+                 iterate |-> iterate, mism |-> mism, excs |-> excs, reach |-> Reach]))
 =============================================================================
